@@ -26,3 +26,160 @@ package varmq
 //@   modifies $chan(w.eventLoopSignal)
 //@   ensures [pending] w.eventLoopSignal != nil && $cap(w.eventLoopSignal) >= 1 ==> $len(w.eventLoopSignal) >= 1
 //@   ensures [atmost]  $sent(w.eventLoopSignal) == old($sent(w.eventLoopSignal)) || $sent(w.eventLoopSignal) == old($sent(w.eventLoopSignal)) + 1
+
+// ---------------------------------------------------------------- ghost resources of a worker
+//@ type worker: ghost $disp Int
+//@ type worker: ghost $listeners Int
+//@ type worker: ghost $armed Int
+//@ type worker: ghost $reapers Int
+//@ type worker: ghost $nodes Int
+//@ type worker: ghost $dispatched Int
+//@ type worker: ghost $freed Int
+// $disp: dispatcher goroutines reading w.eventLoopSignal (they return when that channel is closed)
+// $listeners: context listeners on w.ctx that have not fired yet; $armed: asynchronous Stop() calls triggered by cancel() and not yet run
+// $reapers: live idle-worker reapers; $nodes: pool goroutines started; $dispatched: jobs handed to a pool node; $freed: nodes given back
+
+// Idle list: a ring (RI_List) of detached-from-nothing nodes whose channels are open.
+//@ pred PoolOK(w *worker) := w.pool != nil && w.pool.List != nil && @RI_List(w.pool.List)
+//@      && (forall n *linkedlist.Node[pool.Node[JobType]] {w.pool.List.$in[n]} :: w.pool.List.$in[n] && n != $addr(w.pool.List.root) ==> n.Value.ch != nil && $open(n.Value.ch) && $cap(n.Value.ch) >= 1)
+//@ pred NodeFree(n *linkedlist.Node[pool.Node[JobType]]) := n != nil && $alloc(n) && n.next == nil && n.prev == nil && n.Value.ch != nil && $open(n.Value.ch) && $cap(n.Value.ch) >= 1
+
+// Worker invariant, per lifecycle state (C14): what "Running" must mean for the worker to be able to process jobs.
+//@ pred RI_worker(w *worker) := w != nil && PoolOK(w) && QM(w) && w.metrics != nil && w.waiters != nil && w.workerFunc != nil
+//@      && 0 <= w.status && w.status <= stopped && w.concurrency >= 1 && w.$disp >= 0 && w.$armed >= 0 && w.$listeners >= 0
+//@      && (w.status == initiated ==> w.eventLoopSignal != nil && $open(w.eventLoopSignal) && $cap(w.eventLoopSignal) >= 1 && w.errorChan != nil && $open(w.errorChan)
+//@                                     && w.$disp == 0 && w.$listeners == 0 && w.pool.List.len == 0 && w.curProcessing == 0)
+//@      && ((w.status == running || w.status == paused) ==> w.eventLoopSignal != nil && $open(w.eventLoopSignal) && $cap(w.eventLoopSignal) >= 1
+//@                                     && w.errorChan != nil && $open(w.errorChan) && w.$disp == 1 && (w.ctx != nil ==> w.$listeners == 1))
+//@      && (w.status == stopped ==> w.eventLoopSignal == nil && w.errorChan == nil && w.$disp == 0 && w.pool.List.len == 0 && w.$listeners == 0)
+//@      && ((w.ctx != nil) <==> (w.cancel != nil)) && ((w.ctx != nil) <==> (w.Configs.ctx != nil))
+//@      && (w.$armed > 0 ==> w.status == stopped)
+
+// ---------------------------------------------------------------- small helpers
+//@ func worker.configs
+//@   props C14
+//@   ensures result == w.Configs
+
+//@ func worker.Metrics
+//@   props C17
+//@   ensures result == w.metrics
+
+//@ func worker.Errs
+//@   props C03
+//@   ensures result == w.errorChan
+
+//@ func worker.Context
+//@   props C14
+//@   ensures result == w.ctx
+
+// numMinIdleWorkers = max(concurrency * ratio / 100, 1), computed without overflow.
+//@ func worker.numMinIdleWorkers
+//@   props C18
+//@   requires w.Configs.minIdleWorkerRatio <= 100
+//@   ensures [value] result == max((w.concurrency * w.Configs.minIdleWorkerRatio) / 100, 1)
+//@   ensures [min]   result >= 1
+
+// releaseWaiters: when nothing is in flight any more the barrier waiters are woken -- if paused, or if running with nothing pending.
+//@ func worker.releaseWaiters
+//@   props C06
+//@   requires w.waiters != nil && RI_Manager($addr(w.queues.Manager))
+//@   requires forall i int :: 0 <= i && i < len(w.queues.Manager.items) ==> $lenOf(w.queues.Manager.items[i]) >= 0
+//@   requires forall k int {@sumLen(w.queues.Manager.items, k)} :: 0 <= k && k <= len(w.queues.Manager.items) ==> @sumLen(w.queues.Manager.items, k) <= MaxInt
+//@   modifies $broadcasts[w.waiters]
+//@   ensures [busy]  processing != 0 ==> $broadcasts[w.waiters] == old($broadcasts[w.waiters])
+//@   ensures [wake]  processing == 0 && (w.status == paused || (w.status == running && @sumLen(w.queues.Manager.items, len(w.queues.Manager.items)) == 0)) ==> $broadcasts[w.waiters] == old($broadcasts[w.waiters]) + 1
+//@   ensures [quiet] processing == 0 && !(w.status == paused || (w.status == running && @sumLen(w.queues.Manager.items, len(w.queues.Manager.items)) == 0)) ==> $broadcasts[w.waiters] == old($broadcasts[w.waiters])
+
+// closeChannels: each non-nil channel is closed exactly once and the field set to nil; the dispatcher on the old signal channel ends.
+//@ func worker.closeChannels
+//@   props C14 C18 C10
+//@   requires ChanOK(w.eventLoopSignal) && ChanOK(w.errorChan) && (w.eventLoopSignal == nil || w.eventLoopSignal != w.errorChan)
+//@   modifies w.eventLoopSignal, w.errorChan, $open(w.eventLoopSignal), $open(w.errorChan), w.$disp
+//@   ensures [nil]    w.eventLoopSignal == nil && w.errorChan == nil && w.$disp == 0
+//@   ensures [closed] (old(w.eventLoopSignal) != nil ==> !$open(old(w.eventLoopSignal))) && (old(w.errorChan) != nil ==> !$open(old(w.errorChan)))
+//@   ghost at return: w.$disp := 0
+
+//@ func worker.stopTickers
+//@   props C18
+//@   requires forall t ref {$tickerStopped[t]} :: $tickerStopped[t] >= 0
+//@   modifies w.tickers, $tickerStopped, $alloc
+//@   ensures [emptied] len(w.tickers) == 0
+//@   ensures [stopped] forall k int :: 0 <= k && k < old(len(w.tickers)) ==> $tickerStopped[old(w.tickers[k])] >= 1
+//@   loop 1: invariant 0 <= rangeindex + 1 && rangeindex + 1 <= len(w.tickers) && w.tickers == old(w.tickers)
+//@            && (forall k int :: 0 <= k && k <= rangeindex ==> $tickerStopped[w.tickers[k]] >= 1) && (forall t ref {$tickerStopped[t]} :: $tickerStopped[t] >= old($tickerStopped)[t])
+
+// ---------------------------------------------------------------- goroutine sites
+// One dispatcher is started on the current signal channel (which must exist).
+//@ func worker.goEventLoop
+//@   props C02 C14 C18
+//@   requires w.eventLoopSignal != nil
+//@   modifies $alloc, $spawned["varmq.worker.goEventLoop$1"], w.$disp
+//@   ensures [one] w.$disp == old(w.$disp) + 1 && $spawned["varmq.worker.goEventLoop$1"] == old($spawned["varmq.worker.goEventLoop$1"]) + 1
+//@   ghost at go varmq.worker.goEventLoop$1: w.$disp := w.$disp + 1
+
+// No idle expiry configured: nothing. Otherwise one ticker is recorded and one reaper goroutine started.
+//@ func worker.goRemoveIdleWorkers
+//@   props C18
+//@   requires w.Configs.idleWorkerExpiryDuration >= 0 && len(w.tickers) < MaxInt
+//@   modifies $alloc, $spawned["varmq.worker.goRemoveIdleWorkers$1"], w.$reapers, w.tickers, w.tickers[**], key G:$tickersLive
+//@   ensures [off] w.Configs.idleWorkerExpiryDuration == 0 ==> w.$reapers == old(w.$reapers) && len(w.tickers) == old(len(w.tickers))
+//@   ensures [on]  w.Configs.idleWorkerExpiryDuration != 0 ==> w.$reapers == old(w.$reapers) + 1 && len(w.tickers) == old(len(w.tickers)) + 1
+//@   ghost at go varmq.worker.goRemoveIdleWorkers$1: w.$reapers := w.$reapers + 1
+
+// A listener is started on the current context, if there is one.
+//@ func worker.goListenToContext
+//@   props C14 C18
+//@   modifies $alloc, $spawned["varmq.worker.goListenToContext$1"], w.$listeners
+//@   ensures [none] w.ctx == nil ==> w.$listeners == old(w.$listeners)
+//@   ensures [one]  w.ctx != nil ==> w.$listeners == old(w.$listeners) + 1
+//@   ghost at go varmq.worker.goListenToContext$1: w.$listeners := w.$listeners + 1
+
+// The context listener: when the context is done it stops the worker.
+//@ func worker.goListenToContext$1
+//@   props C14
+//@   requires $deref(w) != nil
+
+// initPoolNode takes a node from the cache, starts its goroutine and hands it to the caller (it is in no list).
+//@ func worker.initPoolNode
+//@   props C01 C18
+//@   requires w.pool != nil
+//@   modifies $alloc, $spawned["pool.Node.Serve"], w.$nodes
+//@   ensures [node]  NodeFree(result)
+//@   ensures [count] w.$nodes == old(w.$nodes) + 1
+//@   ghost at go pool.Node.Serve: w.$nodes := w.$nodes + 1
+
+// ---------------------------------------------------------------- the pool
+// freePoolNode: the node (owned by the caller, in no list) is kept idle iff the backlog is at least the limit, or expiry is configured, or
+// the idle list is below its minimum; otherwise it is stopped and cached. It never retires the last idle node.
+//@ func worker.freePoolNode
+//@   props C18 C01 C03
+//@   requires PoolOK(w) && w.pool.List.len < MaxUint32 && QM(w) && NodeFree(node) && w.Configs.minIdleWorkerRatio <= 100 && w.Configs.idleWorkerExpiryDuration >= 0
+//@   requires forall i int :: 0 <= i && i < len(w.queues.Manager.items) ==> $lenOf(w.queues.Manager.items[i]) >= 0
+//@   requires forall k int {@sumLen(w.queues.Manager.items, k)} :: 0 <= k && k <= len(w.queues.Manager.items) ==> @sumLen(w.queues.Manager.items, k) <= MaxInt
+//@   requires w.concurrency * w.Configs.minIdleWorkerRatio <= MaxUint32
+//@   modifies linkedlist.Node.next, linkedlist.Node.prev, w.pool.List.len, w.pool.List.$at, w.pool.List.$pos, w.pool.List.$in, node.Value.lastUsed, $alloc, $chan(node.Value.ch), key G:$poolputs
+//@   ensures [pool]    PoolOK(w)
+//@   ensures [kept]    (@sumLen(w.queues.Manager.items, len(w.queues.Manager.items)) >= w.concurrency || w.Configs.idleWorkerExpiryDuration > 0 || old(w.pool.List.len) < max((w.concurrency * w.Configs.minIdleWorkerRatio) / 100, 1))
+//@                       ==> w.pool.List.len == old(w.pool.List.len) + 1 && w.pool.List.$in[node] && $sent(node.Value.ch) == old($sent(node.Value.ch))
+//@   ensures [retired] !(@sumLen(w.queues.Manager.items, len(w.queues.Manager.items)) >= w.concurrency || w.Configs.idleWorkerExpiryDuration > 0 || old(w.pool.List.len) < max((w.concurrency * w.Configs.minIdleWorkerRatio) / 100, 1))
+//@                       ==> w.pool.List.len == old(w.pool.List.len) && !w.pool.List.$in[node] && $sent(node.Value.ch) == old($sent(node.Value.ch)) + 1
+//@   ensures [notlast] old(w.pool.List.len) == 0 ==> w.pool.List.len == 1
+
+// sendToNextChannel: the job goes to exactly one pool node: the idle node popped from the list, or a new one only if the list was empty.
+//@ func worker.sendToNextChannel
+//@   props C01 C03 C18
+//@   requires PoolOK(w)
+//@   modifies linkedlist.Node.next, linkedlist.Node.prev, w.pool.List.len, w.pool.List.$in, $alloc, $spawned["pool.Node.Serve"], w.$nodes, w.$dispatched, key CH:sent, key CH:rcvd, key CHV:<
+//@   ensures [one]   w.$dispatched == old(w.$dispatched) + 1
+//@   ensures [pool]  PoolOK(w) && (old(w.pool.List.len) > 0 ==> w.pool.List.len == old(w.pool.List.len) - 1 && w.$nodes == old(w.$nodes))
+//@   ensures [grow]  old(w.pool.List.len) == 0 ==> w.pool.List.len == 0 && w.$nodes == old(w.$nodes) + 1
+//@   ghost after call pool.Node.Send: w.$dispatched := w.$dispatched + 1
+
+// stopAndRemoveAllWorkers: the idle list is emptied; every node that was idle gets the stop payload and goes back to the cache.
+//@ func worker.stopAndRemoveAllWorkers
+//@   props C18 C14
+//@   requires PoolOK(w)
+//@   modifies linkedlist.Node.next, linkedlist.Node.prev, w.pool.List.len, w.pool.List.$at, w.pool.List.$pos, w.pool.List.$in, $alloc, key CH:sent, key CH:rcvd, key CHV:<, key G:$poolputs
+//@   ensures [empty] w.pool.List.len == 0 && PoolOK(w)
+//@   loop 1: invariant [range] 0 <= rangeindex + 1 && rangeindex + 1 <= len($ranged) && PoolOK(w) && w.pool.List.len == len($ranged) - (rangeindex + 1)
+//@   loop 1: invariant [rest]  forall m int :: rangeindex + 1 <= m && m < len($ranged) ==> $ranged[m] == w.pool.List.$at[m - rangeindex]
